@@ -519,7 +519,7 @@ theorem seqIdx_succ_ok {β} (g : Nat → SM β) (n i : Nat) (s sk : SState) (bs 
     | error e =>
       simp only [reduceCtorEq, Prod.mk.injEq, false_and, false_iff]
       rintro ⟨b', s0', bs', hb, hs, _⟩
-      simp only [Prod.mk.injEq, Except.ok.injEq] at hb
+      simp only [Except.ok.injEq] at hb
       rw [← hb.2, h2] at hs; simp at hs
     | ok bs2 =>
       simp only [SM.pure_apply]
@@ -580,6 +580,23 @@ theorem seqIdx_error_iff {β} (g : Nat → SM β) (fuel i : Nat) (s s' : SState)
           refine ⟨k, by omega, bs', sk, ?_, ?_⟩
           · rw [hb.2]; exact hs
           · rw [← herr]; congr 1; omega
+
+/-- the k-th collected outcome is the result of `g (i+k)` run in the state reached after the first k -/
+theorem seqIdx_get {β} (g : Nat → SM β) (fuel i : Nat) (s s' : SState) (bs : List β)
+    (h : seqIdx g fuel i s = (.ok bs, s')) (k : Nat) (hk : k < fuel) :
+    ∃ pre sk b sk', seqIdx g k i s = (.ok pre, sk) ∧ g (i + k) sk = (.ok b, sk') ∧ bs[k]? = some b := by
+  induction fuel generalizing i s bs k with
+  | zero => omega
+  | succ n ih =>
+    rw [seqIdx_succ_ok] at h
+    obtain ⟨b0, s0, bs', hb, hs, rfl⟩ := h
+    cases k with
+    | zero => exact ⟨[], s, b0, s0, by simp [seqIdx], by simpa using hb, by simp⟩
+    | succ k =>
+      obtain ⟨pre, sk, b, sk', h1, h2, h3⟩ := ih (i + 1) s0 bs' hs k (by omega)
+      refine ⟨b0 :: pre, sk, b, sk', ?_, ?_, by simpa using h3⟩
+      · rw [seqIdx_succ_ok]; exact ⟨b0, s0, pre, hb, h1, rfl⟩
+      · rw [← h2]; congr 1; omega
 
 theorem lengthV_nonneg {v : Val} {n : Int} (h : lengthV v = .ok n) : 0 ≤ n := by
   cases v <;> simp [lengthV] at h <;> omega
